@@ -34,6 +34,30 @@ func isStoreAsIndex(v ssa.Value) bool {
 }
 
 func c06(c *Ctx) {
+	// ---- C06.7 the index never changes what an open snapshot references (analysis shared with C10.1) ------------------------
+	c10CopyOnWrite(c, "C06.7")
+	// ---- C06.6 a read assembled from two indexes is assembled under the db lock -------------------------------------------
+	// (ExecAll / ZAdd / SetReference write several indexes in one transaction under db.mutex held for writing; a reader that
+	// takes one snapshot per index lets such a transaction commit between the two unless it holds the lock for reading:
+	// it would return the set membership of one state resolved against the values of another)
+	{
+		r := "C06.6/multi-index-read-under-the-db-lock"
+		snap := callTo(dbT+"snapshotSince", storeT+"SnapshotMustIncludeTxID", storeT+"SnapshotMustIncludeTxIDWithRenewalPeriod")
+		n := 0
+		for _, fn := range c.allFns {
+			if !fnInPkgs(fn, []string{"pkg/database"}) || len(fn.Blocks) == 0 || fn.Signature.Recv() == nil || structName(fn.Signature.Recv().Type()) != "db" {
+				continue
+			}
+			if len(sites(fn, snap)) < 2 {
+				continue
+			}
+			n++
+			c.ruleHeldAt(r, fn, "snapshot", snap, "db.mutex", false, nil)
+		}
+		if n < 1 {
+			c.undecided(r, "floor", "no db method taking two snapshots found (ZScan confirmed by hand)")
+		}
+	}
 	// ---- C06.1 reads wait for the index ---------------------------------------------------------------------
 	r := "C06.1/reads-wait"
 	wait := callTo(dbT+"WaitForIndexingUpto", storeT+"WaitForIndexingUpto", dbT+"snapshotSince", storeT+"SnapshotMustIncludeTxID", storeT+"SnapshotMustIncludeTxIDWithRenewalPeriod")
